@@ -1,4 +1,199 @@
-From Scan Require Import ScanGeneric ScanModel GenScanFacts.
+(** C09 -- Scans equal independent runs, row-aligned, under any scheduling.
+
+    ONLY theorem statements (written out in full), each closed by [exact <lemma>] and followed by
+    [Print Assumptions].  [gen_scan_facts] is REGENERATED from /repo/src/mxlpy/{scan,mc,parallel,
+    simulation}.py on every run; [C09_facts_pinned] is the obligation that breaks when
+    [_update_parameters_and_initial_conditions] stops working on its own deep copy of the model,
+    when the pool / sequential map, the result containers, [Simulation.default] /
+    [_compute_args] or the workers' placeholder axes are edited.
+
+    Reading guide.  [scan_list] / [scan_dict] (ScanGeneric.v) are the executable heap semantics of
+    a scan: model objects live in a heap, results keep an ADDRESS and are viewed lazily against
+    the object at that address; [Seq] runs all tasks on the caller's heap, [Par w sched] pickles
+    each task, lets the pool complete them in the order [sched] on workers [< w] and unpickles
+    the results.  [spec] / [independent] is the specification: a separate run on a fresh copy of
+    the model with exactly that row's values, listed in input order under the input labels. *)
+From Coq Require Import List ZArith NArith.
+From Scan Require Import ScanGeneric ScanModel GenScanFacts ScanProofs.
+Import ListNotations.
+
 Theorem C09_facts_pinned : gen_scan_facts = mkScanFacts true true true true true true PhStepGrid.
 Proof. vm_compute. reflexivity. Qed.
 Print Assumptions C09_facts_pinned.
+
+(** the pool: whatever the completion order and the worker that ran each task, the results are
+    handed out in input order, one per task (any number of tasks, any schedule that completes
+    every task) *)
+Theorem C09_pool_schedule_independent :
+  forall (T R : Type) (f : T -> R) (tasks : list T) (sched : list (nat * nat)),
+    (forall i, i < length tasks -> In i (map fst sched)) ->
+    collect (pool_run sched f tasks) = map f tasks.
+Proof. exact pool_schedule_independent. Qed.
+Print Assumptions C09_pool_schedule_independent.
+
+(** ANY worker and ANY lazy view (steady-state, time-course, protocol, protocol-time-course, the
+    Monte-Carlo variants, user-supplied workers), any model, any table, sequential or parallel
+    with any number of workers, any completion order, more or fewer rows than workers:
+    the list-based container shows, for the i-th row, exactly what a separate run on a fresh copy
+    of the model with that row gives, under that row's label.  In sequential mode this needs the
+    task to work on its own deep copy ([copies = true], pinned above); in parallel mode it holds
+    either way. *)
+Theorem C09_scan_equals_independent_any_worker :
+  forall (M Row Lbl Sim Out : Type) (apply_row : Row -> M -> M) (work : M -> Sim * M)
+         (view : Sim -> M -> Out * M) (copies : bool) (md : mode) (m0 : M) (rows : list (Lbl * Row)),
+    (md = Seq -> copies = true) ->
+    mode_ok md (length rows) ->
+    scan_list M Row Lbl Sim Out apply_row work view copies md m0 rows
+    = map (fun lr => (fst lr, independent M Row Sim Out apply_row work view m0 (snd lr))) rows.
+Proof. exact scan_list_equals_independent. Qed.
+Print Assumptions C09_scan_equals_independent_any_worker.
+
+(** the dict-keyed containers (time-course / protocol scans): the same, for tables whose index
+    labels are pairwise different.
+    FULL STATEMENT (false, see C09_duplicate_labels_refuted): the same without [NoDup]. *)
+Theorem C09_dict_scan_equals_independent_any_worker_partial :
+  forall (M Row Lbl Sim Out : Type) (apply_row : Row -> M -> M) (work : M -> Sim * M)
+         (view : Sim -> M -> Out * M) (lbl_eqb : Lbl -> Lbl -> bool),
+    (forall a b, lbl_eqb a b = true <-> a = b) ->
+    forall (copies : bool) (md : mode) (m0 : M) (rows : list (Lbl * Row)),
+    (md = Seq -> copies = true) ->
+    mode_ok md (length rows) ->
+    NoDup (map fst rows) ->
+    scan_dict M Row Lbl Sim Out apply_row work view lbl_eqb copies md m0 rows
+    = map (fun lr => (fst lr, independent M Row Sim Out apply_row work view m0 (snd lr))) rows.
+Proof. exact scan_dict_equals_independent. Qed.
+Print Assumptions C09_dict_scan_equals_independent_any_worker_partial.
+
+(** the executable instance the correspondence check runs against the real code, at the facts of
+    the current source: steady-state scans (list container) ... *)
+Theorem C09_steady_state_scan_equals_independent :
+  forall (w : wkind) (md : mode) (m0 : mdl) (rows : list (label * row)),
+    mode_ok md (length rows) ->
+    scan_list_c gen_scan_facts w md m0 rows
+    = map (fun lr => (fst lr, independent_c w m0 (snd lr))) rows.
+Proof. exact (list_scan_pinned gen_scan_facts C09_facts_pinned). Qed.
+Print Assumptions C09_steady_state_scan_equals_independent.
+
+(** ... and time-course scans (dict container) *)
+Theorem C09_time_course_scan_equals_independent_partial :
+  forall (w : wkind) (md : mode) (m0 : mdl) (rows : list (label * row)),
+    mode_ok md (length rows) ->
+    NoDup (map fst rows) ->
+    scan_dict_c gen_scan_facts w md m0 rows
+    = map (fun lr => (fst lr, independent_c w m0 (snd lr))) rows.
+Proof. exact (dict_scan_pinned gen_scan_facts C09_facts_pinned). Qed.
+Print Assumptions C09_time_course_scan_equals_independent_partial.
+
+(** duplicate index labels in the table: rows are lost, in every mode (known finding) *)
+Theorem C09_duplicate_labels_refuted :
+  exists (w : wkind) (m0 : mdl) (rows : list (label * row)),
+    forall md, mode_ok md (length rows) ->
+      length (scan_dict_c gen_scan_facts w md m0 rows) <> length rows.
+Proof. exact (duplicate_labels_pinned gen_scan_facts C09_facts_pinned). Qed.
+Print Assumptions C09_duplicate_labels_refuted.
+
+(** why the deep copy matters (the defect repaired by fixes/C09-sequential-shared-model.diff):
+    with one shared model object, a parameter defined by an initial assignment on a scanned
+    initial value is read from the LAST row by every lazily evaluated result:
+    fluxes 3,3,3 instead of 1,2,3 *)
+Theorem C09_sequential_shared_model_refuted :
+  forall f : scan_facts, sf_copies f = false ->
+    map first_flux (scan_dict_c f (WTimeCourse [0; 1]%Z) Seq stale_model stale_rows)
+      = [Some (Num 3); Some (Num 3); Some (Num 3)]
+    /\ map first_flux (map (fun lr => (fst lr, independent_c (WTimeCourse [0; 1]%Z) stale_model (snd lr))) stale_rows)
+      = [Some (Num 1); Some (Num 2); Some (Num 3)].
+Proof. exact shared_model_stale. Qed.
+Print Assumptions C09_sequential_shared_model_refuted.
+
+(** a row that fails (integration failure, or ZeroDivisionError during the run) in a model that
+    can be evaluated at t = 0: the worker returns a NaN placeholder over the requested time points
+    with one NaN per variable -- by the theorems above at the row's own position and label *)
+Theorem C09_tc_failed_row_is_nan_placeholder :
+  forall (m : mdl) (c : cache) (tps : list Z),
+    create_cache m = Ok c ->
+    (integ_of (WTimeCourse tps) m c = IFail \/ integ_of (WTimeCourse tps) m c = IZeroDiv) ->
+    exists rv rp, work (WTimeCourse tps) m = (SOk rv rp, m) /\ map fst rv = tps /\
+      Forall (fun tv => length (snd tv) = length (m_vars m) /\ Forall (fun v => v = NaN) (snd tv)) rv.
+Proof. exact tc_placeholder. Qed.
+Print Assumptions C09_tc_failed_row_is_nan_placeholder.
+
+(** ... of the right shape: the placeholder has the time axis of a successful row when the
+    requested time points start at 0.
+    FULL STATEMENT (false, see C09_tc_placeholder_shape_refuted): the same without [starts_at_zero]. *)
+Theorem C09_tc_placeholder_shape_partial :
+  forall (tps : list Z) (m : mdl) (c : cache) (tc : list (Z * list val)) (m' : mdl) (c' : cache),
+    starts_at_zero tps = true ->
+    create_cache m = Ok c -> integ_of (WTimeCourse tps) m c = IOk tc ->
+    create_cache m' = Ok c' ->
+    (integ_of (WTimeCourse tps) m' c' = IFail \/ integ_of (WTimeCourse tps) m' c' = IZeroDiv) ->
+    exists rv rp rv' rp',
+      work (WTimeCourse tps) m = (SOk rv rp, m) /\ work (WTimeCourse tps) m' = (SOk rv' rp', m') /\
+      map fst rv' = map fst rv /\
+      Forall (fun tv => length (snd tv) = length (m_vars m') /\ Forall (fun v => v = NaN) (snd tv)) rv'.
+Proof. exact tc_placeholder_shape. Qed.
+Print Assumptions C09_tc_placeholder_shape_partial.
+
+(** time points 1,2: a successful row has rows for t = 0,1,2 (the integrator inserts its start
+    point), the placeholder only for 1,2 (known finding) *)
+Theorem C09_tc_placeholder_shape_refuted :
+  exists rv rp rv' rp',
+    work (WTimeCourse [1; 2]%Z) (sq_model 0) = (SOk rv rp, sq_model 0) /\
+    work (WTimeCourse [1; 2]%Z) (sq_model 100) = (SOk rv' rp', sq_model 100) /\
+    map fst rv = [0; 1; 2]%Z /\ map fst rv' = [1; 2]%Z /\ rv' = nan_rows (sq_model 100) [1; 2]%Z.
+Proof. exact tc_placeholder_misses_t0. Qed.
+Print Assumptions C09_tc_placeholder_shape_refuted.
+
+(** steady-state scans: a failing row is one NaN row, like the one row of a successful search *)
+Theorem C09_ss_placeholder_shape :
+  forall (m : mdl) (c : cache) (tc : list (Z * list val)) (m' : mdl) (c' : cache),
+    create_cache m = Ok c -> integ_of WSteady m c = IOk tc ->
+    create_cache m' = Ok c' -> (integ_of WSteady m' c' = IFail \/ integ_of WSteady m' c' = IZeroDiv) ->
+    exists rv rp rv' rp',
+      work WSteady m = (SOk rv rp, m) /\ work WSteady m' = (SOk rv' rp', m') /\
+      length rv' = length rv /\
+      Forall (fun tv => length (snd tv) = length (m_vars m') /\ Forall (fun v => v = NaN) (snd tv)) rv'.
+Proof. exact ss_placeholder_shape. Qed.
+Print Assumptions C09_ss_placeholder_shape.
+
+(** outside the guard [create_cache m = Ok c]: a row for which the model cannot even be evaluated
+    at t = 0 (division by zero) makes the worker call -- hence the whole scan -- raise instead of
+    yielding a placeholder; a separate run raises as well (known finding) *)
+Theorem C09_unevaluable_row_refuted :
+  fst (work (WTimeCourse [0; 1]%Z) (apply_row [(10%N, 0%Z)] (guard_model 2))) = SCrash EZeroDiv
+  /\ independent_c (WTimeCourse [0; 1]%Z) (guard_model 2) [(10%N, 0%Z)] = OCrash EZeroDiv.
+Proof. exact unevaluable_row_raises. Qed.
+Print Assumptions C09_unevaluable_row_refuted.
+
+(** protocol scans: the placeholder's time axis IS the axis of a successful run (t = 0, then
+    [time_points_per_step] points per step), for every protocol and every number of points, for
+    every way of computing np.linspace whose first point is its start *)
+Theorem C09_protocol_placeholder_axis :
+  forall (T : Type) (lin : T -> T -> nat -> nat -> T) (zero : T),
+    (forall a b n, lin a b n 0 = a) ->
+    forall (tends : list T) (tpps : nat), tends <> [] ->
+      placeholder_axis T lin zero (sf_protocol_axis gen_scan_facts) tends tpps
+      = success_axis T lin zero tends tpps.
+Proof. exact (protocol_axis_pinned gen_scan_facts C09_facts_pinned). Qed.
+Print Assumptions C09_protocol_placeholder_axis.
+
+(** the axis repaired by fixes/C09-protocol-placeholder-axis.diff was one row short, always *)
+Theorem C09_protocol_unfixed_axis_refuted :
+  forall (T : Type) (lin : T -> T -> nat -> nat -> T) (zero : T),
+    (forall a b n, lin a b n 0 = a) ->
+    forall (tends : list T) (tpps : nat), tends <> [] ->
+      S (length (placeholder_axis T lin zero PhLinspaceNT tends tpps))
+      = length (success_axis T lin zero tends tpps).
+Proof. exact protocol_unfixed_axis_short. Qed.
+Print Assumptions C09_protocol_unfixed_axis_refuted.
+
+(** non-vacuity: three rows, two workers, tasks completing in the order 2, 0, 1; the model whose
+    parameter is assigned from the scanned initial value *)
+Example C09_nonvacuous :
+  let md := Par 2 [(2, 1); (0, 0); (1, 1)] in
+  mode_ok md (length stale_rows) /\ NoDup (map fst stale_rows) /\
+  map first_flux (scan_dict_c expected_facts (WTimeCourse [0; 1]%Z) md stale_model stale_rows)
+    = [Some (Num 1); Some (Num 2); Some (Num 3)] /\
+  map first_flux (scan_dict_c expected_facts (WTimeCourse [0; 1]%Z) Seq stale_model stale_rows)
+    = [Some (Num 1); Some (Num 2); Some (Num 3)].
+Proof. exact nonvacuous_schedule. Qed.
+Print Assumptions C09_nonvacuous.
